@@ -64,25 +64,26 @@ type profile struct {
 	name      string
 	w         map[string]int
 	arbitrary int // percent of arbitrary actions
+	prelude   int // percent of histories that start with the candidate-node prelude
 }
 
 var kinds = []string{"registerCandidate", "unRegisterCandidate", "quitNode", "authorizeForPeer", "unAuthorizeForPeer", "withdraw",
 	"withdrawOng", "withdrawFee", "addInitPos", "reduceInitPos", "setPeerCost", "changeMaxAuthorization", "setFeePercentage",
 	"blackNode", "whiteNode", "updateGlobalParam", "updateGlobalParam2", "setGasAddress", "income", "commitDpos", "transferPenalty"}
 
-var profMixed = &profile{name: "mixed", arbitrary: 30, w: map[string]int{"registerCandidate": 7, "unRegisterCandidate": 1, "quitNode": 5,
+var profMixed = &profile{name: "mixed", arbitrary: 30, prelude: 35, w: map[string]int{"registerCandidate": 7, "unRegisterCandidate": 1, "quitNode": 5,
 	"authorizeForPeer": 13, "unAuthorizeForPeer": 8, "withdraw": 10, "withdrawOng": 2, "withdrawFee": 5, "addInitPos": 3, "reduceInitPos": 3,
 	"setPeerCost": 4, "changeMaxAuthorization": 6, "setFeePercentage": 4, "blackNode": 3, "whiteNode": 2, "updateGlobalParam": 3,
 	"updateGlobalParam2": 3, "setGasAddress": 2, "income": 8, "commitDpos": 17, "transferPenalty": 1}}
 
 // fee-split focus: authorizers, costs, split parameters, income, epochs
-var profSplit = &profile{name: "split", arbitrary: 25, w: map[string]int{"registerCandidate": 6, "unRegisterCandidate": 1, "quitNode": 2,
+var profSplit = &profile{name: "split", arbitrary: 25, prelude: 35, w: map[string]int{"registerCandidate": 6, "unRegisterCandidate": 1, "quitNode": 2,
 	"authorizeForPeer": 16, "unAuthorizeForPeer": 11, "withdraw": 4, "withdrawOng": 1, "withdrawFee": 7, "addInitPos": 3, "reduceInitPos": 2,
 	"setPeerCost": 6, "changeMaxAuthorization": 7, "setFeePercentage": 6, "blackNode": 2, "whiteNode": 1, "updateGlobalParam": 5,
 	"updateGlobalParam2": 5, "setGasAddress": 3, "income": 10, "commitDpos": 20, "transferPenalty": 1}}
 
 // custody focus: nodes come and go, stakes are frozen, unfrozen, penalised and withdrawn
-var profCustody = &profile{name: "custody", arbitrary: 30, w: map[string]int{"registerCandidate": 10, "unRegisterCandidate": 1, "quitNode": 8,
+var profCustody = &profile{name: "custody", arbitrary: 30, prelude: 60, w: map[string]int{"registerCandidate": 10, "unRegisterCandidate": 1, "quitNode": 8,
 	"authorizeForPeer": 12, "unAuthorizeForPeer": 8, "withdraw": 14, "withdrawOng": 2, "withdrawFee": 2, "addInitPos": 4, "reduceInitPos": 4,
 	"setPeerCost": 1, "changeMaxAuthorization": 6, "setFeePercentage": 1, "blackNode": 8, "whiteNode": 3, "updateGlobalParam": 3,
 	"updateGlobalParam2": 2, "setGasAddress": 1, "income": 2, "commitDpos": 18, "transferPenalty": 2}}
@@ -201,12 +202,16 @@ func ser(f func(*common.ZeroCopySink)) []byte {
 
 func (h *hist) mkRegister(pub string, owner common.Address, initPos uint32, sg []common.Address, valid bool) *action {
 	p := &gov.RegisterCandidateParam{PeerPubkey: pub, Address: owner, InitPos: initPos, Caller: []byte("did:ont:x"), KeyNo: 1}
-	return h.mk("registerCandidate", gov.REGISTER_CANDIDATE, ser(p.Serialization), sg, valid, "%s,%s,%d", h.w.nodeName(pub), h.w.name(owner), initPos)
+	a := h.mk("registerCandidate", gov.REGISTER_CANDIDATE, ser(p.Serialization), sg, valid, "%s,%s,%d", h.w.nodeName(pub), h.w.name(owner), initPos)
+	a.mod = &modelOp{op: "deposit", ad: owner, pubs: lowerAll([]string{pub}), amts: []uint64{uint64(initPos)}}
+	return a
 }
 
 func (h *hist) mkPubOwner(kind, method, pub string, owner common.Address, sg []common.Address, valid bool) *action {
 	p := &gov.QuitNodeParam{PeerPubkey: pub, Address: owner} // same layout as UnRegisterCandidateParam
-	return h.mk(kind, method, ser(p.Serialization), sg, valid, "%s,%s", h.w.nodeName(pub), h.w.name(owner))
+	a := h.mk(kind, method, ser(p.Serialization), sg, valid, "%s,%s", h.w.nodeName(pub), h.w.name(owner))
+	a.mod = &modelOp{op: "exit", pubs: lowerAll([]string{pub})} // quitNode / unRegisterCandidate: the peer leaves
+	return a
 }
 
 func listStr(h *hist, pubs []string, pos []uint32) string {
@@ -223,7 +228,12 @@ func (h *hist) mkAuthorize(kind, method string, ad common.Address, pubs []string
 	if err := p.Serialization(s); err != nil {
 		h.t.Fatalf("harness: %v", err)
 	}
-	return h.mk(kind, method, s.Bytes(), sg, valid, "%s,%s", h.w.name(ad), listStr(h, pubs, pos))
+	a := h.mk(kind, method, s.Bytes(), sg, valid, "%s,%s", h.w.name(ad), listStr(h, pubs, pos))
+	a.mod = &modelOp{op: "deposit", ad: ad, pubs: lowerAll(pubs), amts: u64s(pos)}
+	if kind == "unAuthorizeForPeer" {
+		a.mod.op = "unauth"
+	}
+	return a
 }
 
 func (h *hist) mkWithdraw(ad common.Address, pubs []string, amts []uint32, sg []common.Address, valid bool) *action {
@@ -234,6 +244,7 @@ func (h *hist) mkWithdraw(ad common.Address, pubs []string, amts []uint32, sg []
 	}
 	a := h.mk("withdraw", gov.WITHDRAW, s.Bytes(), sg, valid, "%s,%s", h.w.name(ad), listStr(h, pubs, amts))
 	a.wdAddr = &ad
+	a.mod = &modelOp{op: "withdraw", ad: ad, pubs: lowerAll(pubs), amts: u64s(amts)}
 	for _, p := range pubs {
 		a.wdPubs = append(a.wdPubs, strings.ToLower(p))
 	}
@@ -249,7 +260,12 @@ func (h *hist) mkWithdrawFee(ad common.Address, sg []common.Address) *action {
 
 func (h *hist) mkInitPos(kind, method, pub string, owner common.Address, pos uint32, sg []common.Address, valid bool) *action {
 	p := &gov.ChangeInitPosParam{PeerPubkey: pub, Address: owner, Pos: pos}
-	return h.mk(kind, method, ser(p.Serialization), sg, valid, "%s,%s,%d", h.w.nodeName(pub), h.w.name(owner), pos)
+	a := h.mk(kind, method, ser(p.Serialization), sg, valid, "%s,%s,%d", h.w.nodeName(pub), h.w.name(owner), pos)
+	a.mod = &modelOp{op: "deposit", ad: owner, pubs: lowerAll([]string{pub}), amts: []uint64{uint64(pos)}}
+	if kind == "reduceInitPos" {
+		a.mod.op = "reduce"
+	}
+	return a
 }
 
 func (h *hist) mkMaxAuth(p *peerItem, v uint32) *action {
@@ -264,7 +280,9 @@ func (h *hist) mkBlack(pubs []string, sg []common.Address, valid bool) *action {
 	for _, x := range pubs {
 		n = append(n, h.w.nodeName(x))
 	}
-	return h.mk("blackNode", gov.BLACK_NODE, ser(p.Serialization), sg, valid, "%s", strings.Join(n, " "))
+	a := h.mk("blackNode", gov.BLACK_NODE, ser(p.Serialization), sg, valid, "%s", strings.Join(n, " "))
+	a.mod = &modelOp{op: "exit", pubs: lowerAll(pubs)}
+	return a
 }
 
 func gp2Bytes(minPos, splitNum, dapp uint64) []byte {
@@ -368,6 +386,31 @@ func (h *hist) validAction(kind string) *action {
 		if len(c) == 0 {
 			return nil
 		}
+		// goal-directed bias: positions on non-consensus candidate nodes, and top-ups of a position that was already
+		// counted in an earlier epoch (NewPos next to ConsensusPos/CandidatePos), are what un-authorizing later splits
+		var onCand, topUp, topUpCand []pair
+		for _, x := range c {
+			isCand := s.pool[x.pub].status == stCandidate
+			if isCand {
+				onCand = append(onCand, x)
+			}
+			for i := range s.auth {
+				if e := &s.auth[i]; e.pub == x.pub && e.addr == x.ad && e.cons+e.cand > 0 && e.newp == 0 {
+					topUp = append(topUp, x)
+					if isCand {
+						topUpCand = append(topUpCand, x)
+					}
+				}
+			}
+		}
+		switch r := g.pct("authGoal"); {
+		case r < 40 && len(topUpCand) > 0:
+			c = topUpCand
+		case r < 55 && len(topUp) > 0:
+			c = topUp
+		case r < 70 && len(onCand) > 0:
+			c = onCand
+		}
 		pr := c[g.n("authPair", len(c))]
 		budget := s.ont[pr.ad]
 		used := map[string]uint64{}
@@ -436,9 +479,33 @@ func (h *hist) validAction(kind string) *action {
 		if len(c) == 0 {
 			return nil
 		}
+		// goal-directed bias: positions topped up in this epoch, un-authorizing more than the top-up
+		var top, topCand []cand
+		for _, x := range c {
+			if !x.small && x.e.newp > 0 && (x.e.newp/minPos+1)*minPos <= x.avail {
+				top = append(top, x)
+				if s.pool[x.e.pub].status == stCandidate {
+					topCand = append(topCand, x)
+				}
+			}
+		}
+		exceed := false
+		switch r := g.pct("unauthGoal"); {
+		case r < 50 && len(topCand) > 0:
+			c, exceed = topCand, true
+		case r < 75 && len(top) > 0:
+			c, exceed = top, true
+		}
 		x := c[g.n("unauthEntry", len(c))]
 		var pos uint64
-		if x.small {
+		if exceed {
+			lo, maxK := x.e.newp/minPos+1, x.avail/minPos
+			k := g.of("unauthOverK", lo, lo, lo+1, maxK)
+			if k > maxK {
+				k = maxK
+			}
+			pos = k * minPos
+		} else if x.small {
 			pos = g.rng("unauthSmall", 1, x.avail) // any pos >= 1 redeems the whole remainder
 		} else {
 			maxK := x.avail / minPos
@@ -469,7 +536,16 @@ func (h *hist) validAction(kind string) *action {
 				pen = append(pen, e)
 			}
 		}
-		if len(pen) > 0 && g.pct("wdPenalised") < 50 {
+		var ripe []*authInfo // positions un-authorized beyond a same-epoch top-up, one epoch later
+		for _, e := range c {
+			if h.topUp[pairKey{e.addr, e.pub}] == 2 {
+				ripe = append(ripe, e)
+			}
+		}
+		switch r := g.pct("wdGoal"); {
+		case r < 40 && len(ripe) > 0:
+			c = ripe
+		case r < 70 && len(pen) > 0:
 			c = pen
 		}
 		e := c[g.n("wdEntry", len(c))]
@@ -576,6 +652,17 @@ func (h *hist) validAction(kind string) *action {
 			return nil
 		}
 		p := s.pool[s.poolKeys[g.n("attrNode", len(s.poolKeys))]]
+		if kind == "changeMaxAuthorization" && g.pct("maxAuthClosed") < 50 {
+			var closed []*peerItem // nodes nobody can authorize for yet
+			for _, k := range s.poolKeys {
+				if q := s.pool[k]; q.active() && s.attr(k).MaxAuthorize == 0 {
+					closed = append(closed, q)
+				}
+			}
+			if len(closed) > 0 {
+				p = closed[g.n("attrClosed", len(closed))]
+			}
+		}
 		cost := func(l string) uint32 { return uint32(g.of(l, 0, 1, 10, 50, 90, 99, 100, g.rng(l+"R", 0, 100))) }
 		switch kind {
 		case "setPeerCost":
@@ -692,7 +779,9 @@ func (h *hist) validAction(kind string) *action {
 		case 2:
 			df = g.of("gp2Dapp", 0, 1, 10, 30, 50, 100)
 		}
-		return h.mk(kind, gov.UPDATE_GLOBAL_PARAM2, gp2Bytes(mp, sn, df), h.sigs(w.admin), true, "minPos=%d,splitNum=%d,dapp=%d", mp, sn, df)
+		a := h.mk(kind, gov.UPDATE_GLOBAL_PARAM2, gp2Bytes(mp, sn, df), h.sigs(w.admin), true, "minPos=%d,splitNum=%d,dapp=%d", mp, sn, df)
+		a.mod = &modelOp{op: "minpos", minPos: mp}
+		return a
 
 	case "setGasAddress":
 		var ad common.Address
@@ -813,7 +902,9 @@ func (h *hist) arbitraryAction(kind string) *action {
 			q.CandidateFee, q.MinInitStake, q.CandidateNum, q.PosLimit, q.A, q.B, q.Yita, q.Penalty)
 	case "updateGlobalParam2":
 		mp, sn, df := g.of("arbMin", 0, 1, 500), g.of("arbNum", 0, 6, 7, 49), g.of("arbDapp", 0, 50, 100, 101)
-		return h.mk(kind, gov.UPDATE_GLOBAL_PARAM2, gp2Bytes(mp, sn, df), h.anySigs(w.admin), false, "minPos=%d,splitNum=%d,dapp=%d", mp, sn, df)
+		a := h.mk(kind, gov.UPDATE_GLOBAL_PARAM2, gp2Bytes(mp, sn, df), h.anySigs(w.admin), false, "minPos=%d,splitNum=%d,dapp=%d", mp, sn, df)
+		a.mod = &modelOp{op: "minpos", minPos: mp}
+		return a
 	case "setGasAddress":
 		q := &gov.GasAddress{Address: w.dapps[g.n("gasDapp", len(w.dapps))]}
 		return h.mk(kind, gov.SET_GAS_ADDRESS, ser(q.Serialization), h.anySigs(w.admin), false, "%s", w.name(q.Address))
@@ -823,6 +914,49 @@ func (h *hist) arbitraryAction(kind string) *action {
 	return h.validAction("income")
 }
 
+// weights are the profile's weights, raised while the state offers a short-lived opportunity (it ends with the
+// next epoch change): a position topped up in this epoch invites un-authorizing more than the top-up; a counted
+// position on a non-consensus candidate node invites a top-up; a position un-authorized that way an epoch ago
+// invites the withdraw.
+func (h *hist) weights() map[string]int {
+	s, minPos := h.s, uint64(h.s.gp2.MinAuthorizePos)
+	wt := map[string]int{}
+	for k, v := range h.prof.w {
+		wt[k] = v
+	}
+	topUpCand, top, ripe := false, false, false
+	for i := range s.auth {
+		e := &s.auth[i]
+		if h.topUp[pairKey{e.addr, e.pub}] == 2 && e.unfreeze > 0 {
+			ripe = true
+		}
+		p, ok := s.pool[e.pub]
+		if !ok || !p.active() || p.owner == e.addr {
+			continue
+		}
+		if p.status == stCandidate && e.cand > 0 && e.newp == 0 && h.headroom(p) >= minPos && s.ont[e.addr] >= minPos {
+			topUpCand = true
+		}
+		avail := e.newp + e.cand
+		if p.status == stConsensus {
+			avail = e.newp + e.cons
+		}
+		if e.newp > 0 && e.staked() >= minPos && (e.newp/minPos+1)*minPos <= avail {
+			top = true
+		}
+	}
+	if topUpCand {
+		wt["authorizeForPeer"] *= 2
+	}
+	if top {
+		wt["unAuthorizeForPeer"] *= 4
+	}
+	if ripe {
+		wt["withdraw"] *= 3
+	}
+	return wt
+}
+
 // next draws the next action.
 func (h *hist) next() *action {
 	if h.g.pct("arbitrary") < h.prof.arbitrary {
@@ -830,20 +964,21 @@ func (h *hist) next() *action {
 	}
 	// weighted choice among the kinds; a kind without candidate in the current state is redrawn, so that its
 	// weight is redistributed over the kinds the state allows
+	wt := h.weights()
 	total := 0
 	for _, k := range kinds {
-		total += h.prof.w[k]
+		total += wt[k]
 	}
 	for try := 0; try < 10; try++ {
 		r := h.g.n("kind", total)
 		for _, k := range kinds {
-			if r < h.prof.w[k] {
+			if r < wt[k] {
 				if a := h.validAction(k); a != nil {
 					return a
 				}
 				break
 			}
-			r -= h.prof.w[k]
+			r -= wt[k]
 		}
 	}
 	if a := h.validAction("commitDpos"); a != nil {
